@@ -16,6 +16,12 @@ first_missed = {
  "C20-b": "missed (broadcast failures not exercised); caught since simultaneous broadcast failures are brought together at the new hook in DTLSR.ReportFailure",
  "C07-c": "missed (no recipient left during a hand-over); caught since the mux-leave workload - duplicate delivery, race report and 'send on closed channel'",
  "C01-c": "missed (no failing serialisations); caught since the failing-writer workload",
+ "C08-c": "not a C08 scenario (C08's pools come from one fragmentation; which of two same-offset fragments the store keeps is C10's subject) - missed by C08, caught by C10's store part (`c10.store.iscomplete-wrong:...same-offset-different-length`)",
+ "C11-d": "missed (the hostile workload mirrors Client.Start instead of using it, every dtn7-go peer announces 1 MiB); caught since the real Client runs against the scripted peer with small announced segment MRUs",
+ "C15-c": "missed twice over: a report naming another ID was skipped as 'about another bundle', and no report was produced on the retry path; caught since wrong fragment references are judged and the table has outcomes on the retry path",
+ "C05-c": "missed (retention was only judged at quiescent points); caught since R1 is also judged while the transmissions are parked on the gate",
+ "C05-d": "missed (never more than a handful of bundles waiting); caught since the backlog workload (20-120 waiting bundles)",
+ "C13-c": "missed; the workload built for it (peer appears / retry job fires while the first selection of peers is under way) found two genuine defects of the unchanged tree instead (fixed: 960f60a, dc87868). After dc87868 one bundle is forwarded by one goroutine at a time, which makes the lock this change removes redundant: the change no longer breaks the property and stays undetected",
 }
 rows = []
 for p in sorted(glob.glob(os.path.join(os.path.dirname(__file__), "..", "seeded", "*", "meta.json"))):
